@@ -33,6 +33,9 @@ package hcldec
 // verif:func prepareBodyVal
 //@ trusted
 //@ assigns nothing
+// verif:func sourceRange
+//@ trusted
+//@ assigns nothing
 
 // conformsTo(v, t): v's type is the implied type t, up to removal of optional-attribute markers.
 // verif:pred conformsTo(v cty.Value, t cty.Type) = typeOf(v) == t || typeOf(v) == woad(t)
@@ -61,6 +64,35 @@ package hcldec
 // verif:func (*BlockMapSpec).decode$1
 //@ nosafety
 //@ ensures isKnownVal(ret)
+
+// ---- block lists and sets (unit U17b) ----
+// verif:func (*BlockListSpec).impliedType
+//@ requires s.Nested != nil
+//@ pure
+//@ ensures ret == listOf(implied(s.Nested))
+
+// Decoding a block list: no panic (cty.ListVal needs a non-empty slice of values of one type: the
+// CanListVal guard after the unification step); an empty or unknown result has the implied type.
+// verif:func (*BlockListSpec).decode
+//@ nosafety
+//@ requires s.Nested != nil && content != nil
+//@ ensures empty: len(content.Blocks) == 0 ==> conformsTo(ret0, listOf(implied(s.Nested)))
+//@ ensures unknown: !isKnownVal(ret0) ==> conformsTo(ret0, listOf(implied(s.Nested)))
+//@ loop 1 invariant rangeindex + 1 <= len(content.Blocks) && (rangeindex == 0 - 1 ==> len(elems) == 0)
+
+// verif:func (*BlockSetSpec).impliedType
+//@ requires s.Nested != nil
+//@ pure
+//@ ensures ret == setOf(implied(s.Nested))
+
+// Decoding a block set: no panic (cty.SetVal needs a non-empty slice of values of one type: the
+// CanSetVal guard after the unification step); an empty or unknown result has the implied type.
+// verif:func (*BlockSetSpec).decode
+//@ nosafety
+//@ requires s.Nested != nil && content != nil
+//@ ensures empty: len(content.Blocks) == 0 ==> conformsTo(ret0, setOf(implied(s.Nested)))
+//@ ensures unknown: !isKnownVal(ret0) ==> conformsTo(ret0, setOf(implied(s.Nested)))
+//@ loop 1 invariant rangeindex + 1 <= len(content.Blocks) && (rangeindex == 0 - 1 ==> len(elems) == 0)
 
 // verif:unit U18 props=C19
 // Block labels may have been computed from values (dynamic blocks): not source text.
